@@ -257,7 +257,12 @@ def run_posix(desc):
     out.exhaustive = True
     points = list(range(256)) + [0x100, 0x17f, 0x212a, 0x3b1, 0x4e00, 0x2028, 0xfffd, 0x1f600, 0x10ffff] + \
         [257 + (i * 2749) % 0x10fe00 for i in range(391)]
-    points = [p for p in points if not 0xd800 <= p <= 0xdfff]
+    # code points that the regex engine's own classes (\\d \\s \\w, str.isupper ...) count in although the C-locale classes do not
+    points += list(range(0x660, 0x66a)) + list(range(0xff10, 0xff1a)) + list(range(0x2000, 0x200e)) + \
+        [0x966, 0xe52, 0x1d7ce, 0x1d7ff, 0xb2, 0xb9, 0xbc, 0x2160, 0x2460, 0xaa, 0xb5, 0xba, 0xc0, 0xdf, 0xe0, 0xff, 0x130, 0x131, 0x1c5, 0x2b0, 0x2c6,
+         0x391, 0x3c2, 0x3a3, 0x410, 0x430, 0xff21, 0xff41, 0xa0, 0x85, 0x1680, 0x2028, 0x2029, 0x202f, 0x205f, 0x3000, 0xfeff, 0xad, 0x203f,
+         0x2040, 0xfe33, 0xff3f, 0x300, 0x903, 0x2e80, 0x3007, 0xa1, 0xbf, 0x2010, 0x2018, 0x20ac, 0xe000, 0xf8ff, 0x10000, 0xe0001]
+    points = list(dict.fromkeys(p for p in points if not 0xd800 <= p <= 0xdfff))
     chars = [chr(p) for p in points]
     for name in A.POSIX_NAMES:
         for neg in (False, True):
